@@ -48,8 +48,8 @@ PROPS = {
              "header flags, 1-12 random bytes}; or a hostile handshake reply (any flags x code, short, wrong type, random). "
              "Non-trivial: the reference reaches a verdict other than plain accept, or transfers were pending.",
         assumptions=ASSUME_SIM + ["strictness beyond the violations listed in the property (reserved header flags on acknowledgements, empty or ill-formed topic in an inbound PUBLISH, non-minimal length) is EITHER: the reference follows the client"],
-        quick=dict(engines=[rapid('^TestC13Hostile', 8000), rapid('^TestC13Allocation', 48, shards=4)]),
-        thorough=dict(engines=[rapid('^TestC13Hostile', 200000, shards=14, timeout=1500), rapid('^TestC13Allocation', 400, shards=4),
+        quick=dict(engines=[rapid('^TestC13Hostile', 8000), rapid('^TestC13AckBeforeWritten', 800), rapid('^TestC13Allocation', 48, shards=4)]),
+        thorough=dict(engines=[rapid('^TestC13Hostile', 200000, shards=14, timeout=1500), rapid('^TestC13AckBeforeWritten', 20000, shards=14, timeout=1500), rapid('^TestC13Allocation', 400, shards=4),
                                dict(kind='fuzz', run='^FuzzC13BrokerBytes$', fuzztime='150s', parallel=12, timeout=600)]),
     ),
     'C10': dict(
